@@ -44,6 +44,22 @@ def symbolic_active():
     return CUR is not None
 
 
+class native:
+    """context manager: run a purely concrete computation of the code under verification natively
+    (shims pass through, np.pi is the float) inside a symbolic contract run"""
+
+    def __enter__(self):
+        global CUR
+        self._saved = CUR
+        CUR = None
+        return self
+
+    def __exit__(self, *a):
+        global CUR
+        CUR = self._saved
+        return False
+
+
 class Unsupported(Exception):
     pass
 
